@@ -6,6 +6,10 @@ cd /verif
 mkdir -p .work bin .cache evidence replays
 go build -o bin/check ./cmd/check
 go build -race -o bin/check-race ./cmd/check
+# warm the cache for the two overlay twins (sync shim of C17, clock shim of C04/C05/C18); a failure here is not fatal: run.sh falls back
+if n=$(python3 tools/mk_overlay.py /repo .work/ov-setup 2>/dev/null) && [ "$n" -ge 1 ]; then go build -tags verifshim -overlay .work/ov-setup/overlay.json -o .work/check-shim-setup ./cmd/check 2>/dev/null || true; fi
+if n=$(python3 tools/mk_clock_overlay.py /repo .work/ovc-setup 2>/dev/null) && [ "$n" -ge 1 ]; then go build -tags verifclock -overlay .work/ovc-setup/overlay.json -o .work/check-clk-setup ./cmd/check 2>/dev/null || true; fi
+rm -rf .work/ov-setup .work/ovc-setup .work/check-shim-setup .work/check-clk-setup
 go vet ./mc ./pki >/dev/null 2>&1 || true
 ./bin/check -list >/dev/null
 echo "setup ok: $(./bin/check -list | tr '\n' ' ')"
